@@ -274,6 +274,13 @@ def gen_unpriv(rng):
         off = 8 * rng.randrange(2, 28)
         mis = rng.choice([0, 0, 0, 1, 2, 3])       # unaligned word/halfword accesses go byte by byte (SCTLR.U=1, A=0): every byte is a User access
         tests.append(dict(unpriv_operands(rng), kind=kind, rn_val=G.DATA + 0x100 * page + off + mis))
+    if rng.random() < 0.4:
+        # the first 32 bytes of the code page - where every test instruction is placed and fetched, with privileged rights - are privileged-only;
+        # unprivileged LOADS aimed at the instruction's own word and at its neighbours: the same address, asked for twice in one step with different rights
+        regs[8] = (1 | 4 << 1, G.CODE, rng.choice([1, 1, 5]) << 8)
+        for _ in range(6):
+            kind = rng.choice([k for k in UNPRIV if k.startswith('ldr')])
+            tests.append(dict(unpriv_operands(rng), kind=kind, rn_val=G.CODE + rng.choice([0, 0, 0, 1, 2, 3, 4, 6, 8])))
     sys = {'sctlr': G.sctlr_value(m=1, a=0, u=1, te=thumb, br=br)}
     sys.update(G.mpu_sys(regs))
     cpsr = G.random_cpsr(rng, cfg, mode=mode, thumb=thumb) | 0x1C0
@@ -623,6 +630,8 @@ def run_unpriv(case):
             M.load_state(arm, start)
             w, off = unpriv_word(kind, thumb, tst['rt'], tst['rn'], tst.get('f'))
             rn_val = (tst['rn_val'] + 4 - off) & 0xFFFFFFFF if thumb else tst['rn_val']        # Thumb: whatever the offset, the access is at rn_val + 4
+            if thumb and G.CODE <= tst['rn_val'] < G.CODE + 0x20:
+                rn_val = (tst['rn_val'] - off) & 0xFFFFFFFF                                  # (tests aimed at the code page: exactly at rn_val)
             r.set(tst['rn'], rn_val)
             addr = (rn_val + off) & 0xFFFFFFFF
             write = kind.startswith('str')
